@@ -8,29 +8,29 @@ namespace Rtsp.Sdp
 open Rtsp.Facts.Sdp
 
 /-- an `int` parameter that `strconv.ParseUint(_, 10, 31)` reads back -/
-def P31 (n : Nat) : Prop := n < 2 ^ 31
+abbrev P31 (n : Nat) : Prop := n < 2 ^ 31
 def OptP31 : Option Nat → Prop
   | some n => P31 n
   | none => True
 
 /-- a dynamic payload type -/
-def Dyn (pt : Nat) : Prop := 96 ≤ pt ∧ pt ≤ 127
+abbrev Dyn (pt : Nat) : Prop := 96 ≤ pt ∧ pt ≤ 127
 
 /-- a sample rate / channel count: positive and below 2^31 -/
-def Pos31 (n : Nat) : Prop := 0 < n ∧ n < 2 ^ 31
+abbrev Pos31 (n : Nat) : Prop := 0 < n ∧ n < 2 ^ 31
 
 /-- a parameter set without Annex-B start code -/
-def NoAnnexB (b : Bytes) : Prop := trimAnnexB b = b
+abbrev NoAnnexB (b : Bytes) : Prop := trimAnnexB b = b
 
 /-- an fmtp key of a `Generic` format as the parser returns it: not empty, no upper-case letter, none of
 `; =` and no blank at either end; values: no `;`, no blank at either end, ASCII -/
-def GenKeyOk (k : Str) : Prop :=
+abbrev GenKeyOk (k : Str) : Prop :=
   k ≠ [] ∧ (∀ c ∈ k, c ≠ 59 ∧ c ≠ 61 ∧ isUpper c = false ∧ isAscii c = true ∧ isSpace c = false)
-def GenValOk (v : Str) : Prop :=
+abbrev GenValOk (v : Str) : Prop :=
   (∀ c ∈ v, c ≠ 59 ∧ isAscii c = true ∧ (isSpace c = true → c = 32)) ∧ v.head? ≠ some 32 ∧ v.getLast? ≠ some 32
 
 /-- keys strictly increasing (byte-wise): the canonical form of a Go map -/
-def KeysSorted (l : List (Str × Str)) : Prop := l.Pairwise fun a b => strLt a.1 b.1 = true
+abbrev KeysSorted (l : List (Str × Str)) : Prop := l.Pairwise fun a b => strLt a.1 b.1 = true
 
 /-- Valid parameters of each format type.  `mt` is the type of the media that holds the format. -/
 def ValidFormat (O : Oracle) (mt : Str) : Format → Prop
